@@ -71,10 +71,18 @@ where
     T: TryFromHeaderValue,
     T::Error: std::error::Error + Send + Sync + 'static,
 {
+    // a list-valued header is a comma-separated list, possibly spread over several lines (RFC 9110, 5.3)
     let mut list = List::new();
     for val in req.headers.get_all(name) {
-        let ans = T::try_from_header_value(val).map_err(|err| invalid_header(err, name, val))?;
-        list.push(ans);
+        for item in val.as_bytes().split(|&b| b == b',') {
+            let item = item.trim_ascii();
+            if item.is_empty() {
+                continue;
+            }
+            let item = HeaderValue::from_bytes(item).map_err(|err| invalid_header(err, name, val))?;
+            let ans = T::try_from_header_value(&item).map_err(|err| invalid_header(err, name, val))?;
+            list.push(ans);
+        }
     }
     if required && list.is_empty() {
         return Err(missing_header(name));
